@@ -32,7 +32,14 @@ var facts = map[string]any{}
 
 func load(dir string) *pkgInfo {
 	p := loadRaw(dir)
-	if inl := normalisePkg(p, loadKnownFuncs()); len(inl) > 0 {
+	inl, ok := safeNormalise(p)
+	if !ok {
+		// the normaliser tripped over something: extract from the tree as written (ties may then
+		// notice a refactoring they would otherwise not), never crash the run
+		p = loadRaw(dir)
+		facts["normaliser_failed_for"] = p.name
+	}
+	if len(inl) > 0 {
 		m, _ := facts["inlined_new_helpers"].(map[string]int)
 		if m == nil {
 			m = map[string]int{}
@@ -43,6 +50,16 @@ func load(dir string) *pkgInfo {
 		facts["inlined_new_helpers"] = m
 	}
 	return p
+}
+
+func safeNormalise(p *pkgInfo) (inl map[string]int, ok bool) {
+	defer func() {
+		if r := recover(); r != nil {
+			fmt.Fprintf(os.Stderr, "extract: normaliser failed (%v); continuing without it\n", r)
+			inl, ok = nil, false
+		}
+	}()
+	return normalisePkg(p, loadKnownFuncs()), true
 }
 
 func loadRaw(dir string) *pkgInfo {
